@@ -42,10 +42,27 @@ func factsSig() {
 	sv := "unrecognised"
 	if fd := funcDecl("app/ante/evm/sigverify.go", "EthSigVerificationDecorator", "AnteHandle"); fd != nil {
 		b := src(fd.Body)
+		// the sender recovery and the assignment of From must be unconditional top-level statements of the per-message
+		// loop (a From that is only set when empty, or only in some modes, leaves an unsigned wire field in force)
+		recoverAt, fromAt := -1, -1
+		for _, st := range fd.Body.List {
+			rs, ok := st.(*ast.RangeStmt)
+			if !ok || !strings.HasSuffix(exprName(rs.X), "tx.GetMsgs()") {
+				continue
+			}
+			for i, inner := range rs.Body.List {
+				s := strings.TrimSpace(src(inner))
+				switch {
+				case isAssign(inner) && s == "sender, err := signer.Sender(ethTx)":
+					recoverAt = i
+				case isAssign(inner) && s == "msgEthTx.From = sender.Hex()":
+					fromAt = i
+				}
+			}
+		}
 		if strings.Contains(b, "ethtypes.MakeSigner(ethCfg, blockNum)") &&
 			strings.Contains(b, "!allowUnprotectedTxs && !ethTx.Protected()") &&
-			strings.Contains(b, "signer.Sender(ethTx)") &&
-			strings.Contains(b, "msgEthTx.From = sender.Hex()") {
+			recoverAt >= 0 && fromAt > recoverAt {
 			sv = "MakeSigner(chain config); unprotected rejected unless AllowUnprotectedTxs; signer.Sender; From set from the recovered sender"
 		}
 	}
